@@ -318,6 +318,23 @@ type property struct {
 type objectBase struct {
 	properties []*property
 	lock       sync.Mutex
+	// The bytes of properties consumed by the last unmarshal.
+	decoded int
+}
+
+// The size of a value which is just unmarshaled. It equals to a.Size(), but for containers
+// it's the bytes consumed by the decoder, because Size() walks the whole tree, which makes
+// decoding of nested containers quadratic in the depth.
+func decodedSize(a Amf0) int {
+	switch v := a.(type) {
+	case *Object:
+		return int(1) + v.eof.Size() + v.decoded
+	case *EcmaArray:
+		return int(1) + 4 + v.eof.Size() + v.decoded
+	case *StrictArray:
+		return int(1) + 4 + v.decoded
+	}
+	return a.Size()
 }
 
 func (v *objectBase) Size() int {
@@ -379,6 +396,8 @@ func (v *objectBase) unmarshal(p []byte, eof bool, maxElems int) (err error) {
 		return oe.Errorf("maxElems=%v with eof", maxElems)
 	}
 
+	v.decoded = 0
+
 	readOne := func() (amf0UTF8, Amf0, error) {
 		var u amf0UTF8
 		if err = u.UnmarshalBinary(p); err != nil {
@@ -405,7 +424,9 @@ func (v *objectBase) unmarshal(p []byte, eof bool, maxElems int) (err error) {
 		v.properties = append(v.properties, &property{key: u, value: a})
 		v.lock.Unlock()
 
-		p = p[a.Size():]
+		n := decodedSize(a)
+		v.decoded += u.Size() + n
+		p = p[n:]
 		return nil
 	}
 
